@@ -8,6 +8,7 @@
 //!   new sink <threshold> <timeout_ms> <sink name>
 //!   start <sender> <single|batch> <id,id,…> <t>          => pending <C|O|H> | rej <C|O|H> dlq=<entries> del=<ids>
 //!   finish <sender> <ok|fail> <k> <msg hex> <t>           => ok|err:<msg hex> <C|O|H> dlq=<entries> del=<ids>
+//!   threads <n> <calls>  => admitted=<count> <C|O|H>   (real threads on an open breaker whose timeout has passed)
 //!     entries = new DLQ file lines read back: <connector hex>|<error hex>|<event id>;…  (or -)
 use crate::util::Ctx;
 use async_trait::async_trait;
@@ -121,6 +122,23 @@ fn random_breaker(ctx: &mut Ctx) {
         }
     }
     play_breaker(ctx, threshold, timeout, &steps);
+}
+
+/// real OS threads (real clock, reset_timeout 0): after one failure the breaker is open and the
+/// timeout has already passed; `nthreads` threads call allow_request() `ncalls` times each without
+/// recording a result. Whatever the schedule, exactly one call (the probe) may be admitted.
+fn threads_case(ctx: &mut Ctx, nthreads: usize, ncalls: usize) {
+    verif_clock::set(None);
+    let cb = Arc::new(CircuitBreaker::new(CircuitBreakerConfig { failure_threshold: 1, reset_timeout: Duration::from_millis(0) }));
+    cb.record_failure();
+    let handles: Vec<_> = (0..nthreads).map(|_| {
+        let cb = cb.clone();
+        std::thread::spawn(move || (0..ncalls).filter(|_| cb.allow_request()).count())
+    }).collect();
+    let admitted: usize = handles.into_iter().map(|h| h.join().unwrap_or(usize::MAX / 8)).sum();
+    ctx.directive("new breaker 1 0");
+    ctx.count("threads");
+    ctx.case(&format!("threads {} {}", nthreads, ncalls), &format!("admitted={} {}", admitted, st(cb.state())));
 }
 
 // ------------------------------------------------------------------ sink level
@@ -328,4 +346,5 @@ pub fn run(ctx: &mut Ctx, _name: &str) {
     for _ in 0..n { random_breaker(ctx); }
     let n = if ctx.thorough { 6000 } else { 500 };
     for i in 0..n { random_sink(ctx, i, i % 4 == 0); }
+    for _ in 0..(if ctx.thorough { 200 } else { 20 }) { threads_case(ctx, 3, 2000); }
 }
